@@ -591,6 +591,8 @@ class RunningShow:
 
     def pause(self):
         """Pause show."""
+        if self._stopped:
+            return
         self.machine.show_controller.debug_log("Pausing show %s", self.show.name)
         self._remove_delay_handler()
         if self.show_config.events_when_paused:
@@ -598,6 +600,8 @@ class RunningShow:
 
     def resume(self):
         """Resume paused show."""
+        if self._stopped:
+            return
         self.machine.show_controller.debug_log("Resuming show %s", self.show.name)
         self.next_step_time = self.machine.clock.get_time()
         self._run_next_step(post_events=self.show_config.events_when_resumed)
@@ -608,6 +612,8 @@ class RunningShow:
         Updates the values of a show while it runs. Currently supports only speed
         and manual_advance properties.
         """
+        if self._stopped:
+            return
         updated_values = {k: v for k, v in kwargs.items() if v is not None}
         if updated_values:
             self.show_config = self.show_config._replace(**updated_values)
@@ -616,6 +622,8 @@ class RunningShow:
 
     def advance(self, steps=1, show_step=None):
         """Manually advance this show to the next step."""
+        if self._stopped:
+            return
         self._remove_delay_handler()
         self.next_step_time = self.machine.clock.get_time()
 
@@ -631,6 +639,8 @@ class RunningShow:
 
     def step_back(self, steps=1):
         """Manually step back this show to a previous step."""
+        if self._stopped:
+            return
         self._remove_delay_handler()
         self.next_step_time = self.machine.clock.get_time()
 
